@@ -101,7 +101,7 @@ fn add<V: Full>(prop: &mut Property, ctx: &Ctx) {
     {
         let wk = wk.clone();
         let pws = passwords();
-        let costs: Vec<Option<Cost>> = if ctx.thorough() { vec![Some(Cost::Min), Some(Cost::Small), Some(Cost::Medium), Some(Cost::Max), None] } else { vec![Some(Cost::Min), Some(Cost::Small), Some(Cost::Medium)] };
+        let costs: Vec<Option<Cost>> = if ctx.thorough() { vec![Some(Cost::Min), Some(Cost::Small), Some(Cost::Medium), Some(Cost::Odd), Some(Cost::Max), None] } else { vec![Some(Cost::Min), Some(Cost::Small), Some(Cost::Medium), Some(Cost::Odd)] };
         let envs: Vec<Mode> = envs::<V>().into_iter().take(2).collect();
         let rad = [wk.len() as u64, pws.len() as u64, costs.len() as u64, envs.len() as u64];
         prop.subs.push(
